@@ -766,13 +766,33 @@ def check_conditioning(ctx, fi, be):
             break
         P = m_w.group(1)
     Pn0 = P.replace(' ', '')
+    # spellings of the same union: set().union(*X) for set.union(*X) (equal whenever X is non-empty - every attribute lies in some clique), a
+    # generator for a list comprehension as the starred argument
+    Pn0 = Pn0.replace('set().union(*', 'set.union(*')
+    mg_ = re.search(r'set\.union\(\*\((\w+)for\1in(.+)if%sin\1\)\)' % re.escape(col), Pn0)
+    if mg_:
+        Pn0 = Pn0.replace(mg_.group(0), 'set.union(*[%sfor%sin%sif%sin%s])' % (mg_.group(1), mg_.group(1), mg_.group(2), col, mg_.group(1)))
+    Pn0 = re.sub(r'(?:tuple|list)\(\((set\((\w+)\)for\2inself\.cliques)\)\)', r'[\1]', Pn0)          # a materialised generator is that list
+    if re.search(r'in\(set\((\w+)\)for\1inself\.cliques\)if', Pn0):
+        gen_names = [k for k, v in entry.items() if isinstance(v, ast.GeneratorExp)]
+        ctx.ob('conditioning', fi, loop, False, 'the clique sets%s are a one-shot generator built before the column loop: the first column consumes it, every later column '
+               'finds no clique and is generated independently of the others' % (' `%s`' % gen_names[0] if gen_names else ''), construct='clique sets of the column loop')
+        return
+    P = Pn0
     # the list of clique sets the union ranges over, read off the (expanded) conditioning set itself - whatever the locals are called
     mm = re.fullmatch(r'(?:%s\.intersection\(|%s&)set\.union\(\*\[(\w+)for\1in(.+)if%sin\1\]\)\)?' % (re.escape(used), re.escape(used), re.escape(col)), Pn0)
     cl_t = 'cliques'
     if mm:
         lst = mm.group(2)
         if re.fullmatch(r'\w+', lst) and entry.get(lst) is not None:
+            if isinstance(entry[lst], ast.GeneratorExp):
+                ctx.ob('conditioning', fi, loop, False, 'the clique sets `%s = %s` are a one-shot generator built before the column loop: the first column consumes it, '
+                       'every later column finds no clique and is generated independently of the others' % (lst, U(entry[lst])[:60]), construct='clique sets of the column loop')
+                return
             lst = T(entry[lst]).replace(' ', '')
+            mt_ = re.fullmatch(r'(?:tuple|list)\(\((.+)\)\)', lst)
+            if mt_:
+                lst = '[%s]' % mt_.group(1)          # a materialised generator is that list
         if re.fullmatch(r'\[set\((\w+)\)for\1inself\.cliques\]', lst):
             cl_t = '[set(cl)forclinself.cliques]'
             P = re.sub(r'\[(\w+)for\1in.+if%sin\1\]' % re.escape(col), '[clforclin%sif%sincl]' % (cl_t, col), Pn0)
